@@ -21,7 +21,7 @@ def load(p):
 def main():
     rnd, sd, r1, r2 = sys.argv[1:5]
     for prop in ["C%02d" % i for i in range(1, 21)]:
-        for n in (1, 2):
+        for n in (1, 2, 3):
             src = os.path.join(sd, prop, "seed_out")
             if not os.path.exists(os.path.join(src, "mut%d.diff" % n)):
                 continue
@@ -29,6 +29,8 @@ def main():
             os.makedirs(dst, exist_ok=True)
             shutil.copy(os.path.join(src, "mut%d.diff" % n), os.path.join(dst, "patch.diff"))
             shutil.copy(os.path.join(src, "mut%d_demo.py" % n), os.path.join(dst, "demo.py"))
+            if os.path.exists(os.path.join(src, "mut%d.as_written.diff" % n)):
+                shutil.copy(os.path.join(src, "mut%d.as_written.diff" % n), os.path.join(dst, "patch.as_written.diff"))
             txt = open(os.path.join(src, "mut%d.txt" % n)).read() if os.path.exists(os.path.join(src, "mut%d.txt" % n)) else ""
             first = load(os.path.join(r1, "%s.mut%d.json" % (prop, n)))
             final = load(os.path.join(r2, "%s.mut%d.json" % (prop, n))) or first
